@@ -19,10 +19,12 @@ CheckDTBefore(e) == Judge("C16", "DateTimeBefore", e.before = SecLT(e.dt, e.t), 
 
 \* ---- C15 ----------------------------------------------------------------------------------------
 OutAP(o) == IF o.t = "ok" THEN [t |-> "ap", ip |-> o.ip, port |-> o.port] ELSE [t |-> o.t]
+\* (the same grammar decides the JSON form of the address types: those events carry `via` and belong to C14)
 CheckParse(e) ==
+  LET P == IF Has(e, "via") THEN "C14" ELSE "C15" IN
   /\ Judge("C04", "NoPanic", e.out.t # "panic", e.out, "no panic")
-  /\ (IF MustAccept(e.role, e.s) THEN Judge("C15", "AcceptExact", OutAP(e.out) = Denotes(e.role, e.s), e.out, Denotes(e.role, e.s))
-      ELSE IF MustReject(e.role, e.s) THEN Judge("C15", "Reject", e.out.t = "err", e.out, "err")
+  /\ (IF MustAccept(e.role, e.s) THEN Judge(P, "AcceptExact", OutAP(e.out) = Denotes(e.role, e.s), e.out, Denotes(e.role, e.s))
+      ELSE IF MustReject(e.role, e.s) THEN Judge(P, "Reject", e.out.t = "err", e.out, "err")
       ELSE TRUE)
 \* formatting an address accepted in dotted-quad form and parsing it again returns the same address and port
 CheckFormat(e) ==
